@@ -106,6 +106,11 @@ def _run_suite(spec, suite, tier, rng, ctx, budget_scale=1):
             if key not in seen and suite.nontrivial(c, iout):
                 seen.add(key)
                 res["nontrivial"] += 1
+            if io["rc"] == -9 and io.get("err", "").startswith("NOT-EVALUATED"):
+                # the harness hung on several earlier cases of this batch: the rest was not run (the hangs themselves are reported)
+                res["not_evaluated"] = res.get("not_evaluated", 0) + 1
+                res["evaluations"] -= 1
+                continue
             if io["rc"] != 0:
                 # the trace up to the crash may already show the property failing: keep the oracle's view for the report
                 try:
@@ -171,13 +176,21 @@ def _shrink(suite, exe, item, mode):
     key = item.get("msg", "").split(":")[0]
     custom = getattr(suite, "still_fails", None)
 
+    t_end = time.time() + float(os.environ.get("VERIF_SHRINK_BUDGET_S", "150"))
+    hang = mode == "crash" and item.get("rc") == -9
+
     def fails(c):
+        if time.time() > t_end:
+            return False                 # shrinking budget used up: keep what we have
         if custom is not None:
             return bool(custom(c, mode, item))
-        rc, out, err = core.run_proc(exe, core.case_text(c), timeout=60, args=suite.harness_args())
+        rc, out, err = core.run_proc(exe, core.case_text(c), timeout=min(15, core.CASE_TIMEOUT) if hang else 60, args=suite.harness_args())
         iout = suite.normalize(core.split_outputs(out).get(str(c["id"]), []))
         if mode == "crash":
-            # the same kind of crash only (same exit status; a timeout while shrinking is not a reproduction)
+            # the same kind of failure only: a hang stays a hang, a crash keeps its exit status (a timeout while shrinking a
+            # crash is not a reproduction)
+            if hang:
+                return rc == -9
             if rc == -9:
                 return False
             want = item.get("rc")
@@ -321,8 +334,8 @@ def run_check(spec, tier="quick", replay=None):
                 break
             budget["crash"] -= 1
             c = _shrink(suite, exe, it, "crash")
-            add_violation("crash", "implementation crashed / sanitizer report (rc=%s)%s" % (
-                              it["rc"], ("; oracle on the trace so far: " + "; ".join(it.get("oracle_partial") or [])) if it.get("oracle_partial") else ""),
+            add_violation("crash", "%s (rc=%s)%s" % (
+                              "implementation hangs: the case does not finish" if it["rc"] == -9 else "implementation crashed / sanitizer report", it["rc"], ("; oracle on the trace so far: " + "; ".join(it.get("oracle_partial") or [])) if it.get("oracle_partial") else ""),
                           {"suite": suite.name, "case": c["lines"], "stderr": it["err"][-3000:], "impl_output": it["impl"],
                            "oracle_on_partial_trace": it.get("oracle_partial") or []},
                           suite.signature(c, "crash"))
@@ -439,7 +452,8 @@ def run_check(spec, tier="quick", replay=None):
                 "non-trivial = the suite's own rule (see suites[].nontrivial_rule)",
         "samples": samples,
         "suites": [{"name": s.name, "cases": r["cases"], "nontrivial": r["nontrivial"], "disagreements": len(r["disagreements"]),
-                    "oracle_failures": len(r["oracle_fail"]), "crashes": len(r["crashes"]), "input_distribution": r["stats"],
+                    "oracle_failures": len(r["oracle_fail"]), "crashes": len(r["crashes"]), "not_evaluated_after_hangs": r.get("not_evaluated", 0),
+                    "input_distribution": r["stats"],
                     "nontrivial_rule": getattr(s, "nontrivial_rule", "every case")} for s, r in suite_results],
         "broken_obligations": proof_broken[:10],
         "modules_scanned_for_forbidden_constructs": mods_scanned,
